@@ -19,6 +19,7 @@ func checkC08(c *Ctx, r *Report) {
 	r.Explanation = c08Explanation
 	r.Trusted = []string{"go/types resolution", "go/ssa translation", "kind->length-term table checker/e1len.go"}
 	r.Assumptions = []string{"PrivateRR.len delegates to the user's PrivateRdata.Len"}
+	gatewayPackByType(c, r, "C08.R1.gateway-pack-by-type")
 	r.rule("C08.R1.len-form", 81, "len adds the kind's length term for every wire field, names measured at the right offset with the right compress flag")
 	for _, t := range c.rrTypes() {
 		if t.Name == "PrivateRR" {
